@@ -308,6 +308,14 @@ def replay_behaviour(col, w, b, hdr, rng, pid):
             try:
                 with fw.quiet():
                     kw = {'chi': thr} if st['crit'] == 'chi' else {'cpd': thr}
+                    if rng.random() < 0.5:
+                        # the output names were already used by an earlier call with another threshold (everything
+                        # good, or everything bad): nothing of that call may survive in the new outputs
+                        kw0 = {'chi': rng.choice([1e-12, 1e12])}
+                        if auto:
+                            filter_output(inp, **kw0)
+                        else:
+                            filter_output(inp, output_good=g, output_bad=bd, **kw0)
                     if auto:
                         filter_output(inp, **kw)
                     else:
